@@ -8,17 +8,17 @@ import (
 
 // Env is a set of declarations from which argument types are drawn.
 type Env struct {
-	Ext        []*ExtPkg
-	NamedBasic []*Decl // subject package
-	NamedComp  []*Decl
-	Structs    []*Decl // subject package structs (all)
-	KeyStructs []*Decl // subject package value-key structs (subset of Structs)
+	Ext           []*ExtPkg
+	NamedBasic    []*Decl // subject package
+	NamedComp     []*Decl
+	Structs       []*Decl // subject package structs (all)
+	KeyStructs    []*Decl // subject package value-key structs (subset of Structs)
 	PtrKeyStructs []*Decl
-	ExtStructs []*Decl
-	ExtKeys    []*Decl // ext value-key structs
-	ExtBasic   []*Decl
-	Opt        EnvOpt
-	foreign    []*Decl // declarations of ext packages generated before the current one
+	ExtStructs    []*Decl
+	ExtKeys       []*Decl // ext value-key structs
+	ExtBasic      []*Decl
+	Opt           EnvOpt
+	foreign       []*Decl // declarations of ext packages generated before the current one
 }
 
 // EnvOpt tunes the environment.
@@ -31,6 +31,7 @@ type EnvOpt struct {
 	DistinctExt  bool // imported packages have distinct package names
 	PtrKeys      bool // also declare a key struct that holds a pointer (legal Go map key, compared by identity)
 	NoFloatKeys  bool
+	BlankFields  bool // some structs have blank fields (_ T): legal Go, only judged at type level (C01)
 	// Avoid lists finding ids whose region the generator must not enter.
 	Avoid map[string]bool
 }
@@ -186,6 +187,11 @@ func DrawEnv(t *rapid.T, opt EnvOpt) *Env {
 			ft := e.drawType(t, 3, byValue, gen, d)
 			d.Fields = append(d.Fields, Field{Name: name, Type: ft})
 		}
+		if opt.BlankFields && rapid.IntRange(0, 3).Draw(t, "blankfield") == 0 {
+			bf := Field{Name: "_", Type: B(pick(t, "blanktype", []string{"int", "string", "uint8", "bool"}))}
+			at := rapid.IntRange(0, len(d.Fields)).Draw(t, "blankat")
+			d.Fields = append(d.Fields[:at], append([]Field{bf}, d.Fields[at:]...)...)
+		}
 		e.Structs = append(e.Structs, d)
 		_ = i
 	}
@@ -197,7 +203,7 @@ func DrawEnv(t *rapid.T, opt EnvOpt) *Env {
 	}
 	if opt.UserMethods {
 		for _, d := range e.Structs {
-			switch rapid.IntRange(0, 4).Draw(t, "usermeth") {
+			switch rapid.IntRange(0, 7).Draw(t, "usermeth") {
 			case 0:
 				d.UserEqual = "ptr"
 			case 1:
@@ -205,6 +211,12 @@ func DrawEnv(t *rapid.T, opt EnvOpt) *Env {
 			case 2:
 				// the idiom of the Readme: the method is implemented by the derived function itself
 				d.UserEqual = "derive"
+			case 3:
+				d.UserEqual = "ptrval"
+			case 4:
+				d.UserEqual = "valptr"
+			case 5:
+				d.UserEqual = "iface"
 			}
 		}
 	}
